@@ -149,6 +149,116 @@ theorem pExdHead_eq_expected (l : Bytes) :
   binrw_norm [Exd.pExdHead, Exd.exdMagic, Expected.eXDHeader, p_bind, p_pure, p_pure', pure, p_skip, p_u16be,
     p_u32be, p_magic, Option.map_eq_bind]
 
+/-! ### `ExcelColumnDefinition` (repr-enum field) and the `Language` elements of `EXH.languages` -/
+
+theorem p_tryMap {α β : Type} (p : ParserBE.P α) (f : α → Option β) (l : Bytes) :
+    ParserBE.tryMap p f l = (p l).bind fun x => (f x.1).map fun b => (b, x.2) := by
+  unfold ParserBE.tryMap
+  rw [p_bind]
+  cases p l with
+  | none => rfl
+  | some x => simp only [Option.bind_some]; cases f x.1 <;> rfl
+
+def columnValid : List Nat := [0, 1, 2, 3, 4, 5, 6, 7, 9, 10, 11, 25, 26, 27, 28, 29, 30, 31, 32]
+def languageValid : List Nat := [0, 1, 2, 3, 4, 5, 6, 7]
+
+namespace Expected
+def excelColumnDefinition : Layout :=
+  .mk (some .big) .none [
+    .mk "data_type" none .none 0 (.enum .u16 columnValid) 0 0,
+    .mk "offset" none .none 0 (.prim .u16) 0 0] true
+end Expected
+
+theorem excelColumnDefinition_generated :
+    BinrwExcel.excelColumnDefinition.normalizeAt .little = Expected.excelColumnDefinition.normalizeAt .little := rfl
+theorem language_generated :
+    (BinrwExcel.languageRepr, BinrwExcel.languageValid) = (.u8, languageValid) := rfl
+
+/-- the regenerated discriminant list is the list of codes of the model's `ColumnDataType` -/
+theorem column_valid (c : UInt16) : columnValid.contains c.toNat = (Exh.ColumnDataType.ofCode c).isSome := by
+  have hv : columnValid = Exh.ColumnDataType.all.map (fun t => t.code.toNat) := by decide
+  rw [hv, Bool.eq_iff_iff]
+  simp only [List.contains_iff_mem, List.mem_map, Exh.ColumnDataType.ofCode, List.find?_isSome, beq_iff_eq,
+    ← UInt16.toNat_inj]
+
+theorem language_valid (c : UInt8) : languageValid.contains c.toNat = (Exh.Language.ofCode c).isSome := by
+  have hv : languageValid = Exh.Language.all.map (fun t => t.code.toNat) := by decide
+  rw [hv, Bool.eq_iff_iff]
+  simp only [List.contains_iff_mem, List.mem_map, Exh.Language.ofCode, List.find?_isSome, beq_iff_eq,
+    ← UInt8.toNat_inj]
+
+def columnOf : List Value → Option Exh.ExcelColumnDefinition
+  | [.w16 .u16 c, .w16 .u16 o] => (Exh.ColumnDataType.ofCode c).map fun t => ⟨t, o⟩
+  | _ => none
+def columnOfV : Value → Option Exh.ExcelColumnDefinition
+  | .struct vs => columnOf vs
+  | _ => none
+def languageOfV : Value → Option Exh.Language
+  | .w8 .u8 c => Exh.Language.ofCode c
+  | _ => none
+
+theorem pColumn_eq_expected (l : Bytes) :
+    Exh.pColumn l = via columnOf (Layout.read .little Expected.excelColumnDefinition l) := by
+  binrw_norm [Exh.pColumn, Expected.excelColumnDefinition, p_bind, p_pure, p_pure', pure, p_u16be, p_tryMap,
+    column_valid, columnOf]
+  cases u16be l with
+  | none => rfl
+  | some x =>
+    simp only [Option.bind_some]
+    cases h : Exh.ColumnDataType.ofCode x.1 with
+    | none => simp
+    | some t =>
+      simp only [Option.isSome_some, if_true, Option.map_some, Option.bind_some]
+
+/-- one `Language` of `#[br(count = header.language_count)] languages: Vec<Language>`: the
+regenerated `repr` enum (`languageRepr`, `languageValid`) read big-endian -/
+theorem pLanguage_eq_expected (l : Bytes) :
+    Exh.pLanguage l =
+      (Kind.read .big [] (.enum .u8 languageValid) l).bind fun v => (languageOfV v.1).map (·, v.2) := by
+  binrw_norm [Exh.pLanguage, p_tryMap, p_u8, language_valid, languageOfV]
+  cases Reader.u8 l with
+  | none => rfl
+  | some x =>
+    simp only [Option.bind_some]
+    cases h : Exh.Language.ofCode x.1 <;> simp
+
+theorem countColumn_eq_expected (n : Nat) (l : Bytes) :
+    ParserBE.count Exh.pColumn n l =
+      (repeatN (Kind.read .little [] (.struct Expected.excelColumnDefinition)) n l).bind fun vs =>
+        (projAll columnOfV vs.1).map (·, vs.2) := by
+  apply listReader_eq_repeatN Exh.pColumn (ParserBE.count Exh.pColumn)
+  · intro l; rfl
+  · intro n l; simp only [ParserBE.count, p_bind, p_pure']
+  · intro l
+    rw [pColumn_eq_expected]
+    binrw_norm [Expected.excelColumnDefinition]
+    rfl
+
+theorem countLanguage_eq_expected (n : Nat) (l : Bytes) :
+    ParserBE.count Exh.pLanguage n l =
+      (repeatN (Kind.read .big [] (.enum .u8 languageValid)) n l).bind fun vs =>
+        (projAll languageOfV vs.1).map (·, vs.2) := by
+  apply listReader_eq_repeatN Exh.pLanguage (ParserBE.count Exh.pLanguage)
+  · intro l; rfl
+  · intro n l; simp only [ParserBE.count, p_bind, p_pure']
+  · intro l; exact pLanguage_eq_expected l
+
+theorem pColumn_eq_generated (l : Bytes) :
+    Exh.pColumn l = via columnOf (Layout.read .little BinrwExcel.excelColumnDefinition l) :=
+  tie pColumn_eq_expected excelColumnDefinition_generated l
+theorem countColumn_eq_generated (n : Nat) (l : Bytes) :
+    ParserBE.count Exh.pColumn n l =
+      (repeatN (Kind.read .little [] (.struct BinrwExcel.excelColumnDefinition)) n l).bind fun vs =>
+        (projAll columnOfV vs.1).map (·, vs.2) := by
+  rw [countColumn_eq_expected]; simp only [Kind.read, Layout.read_congr _ excelColumnDefinition_generated]
+theorem countLanguage_eq_generated (n : Nat) (l : Bytes) :
+    ParserBE.count Exh.pLanguage n l =
+      (repeatN (Kind.read .big [] (.enum BinrwExcel.languageRepr BinrwExcel.languageValid)) n l).bind fun vs =>
+        (projAll languageOfV vs.1).map (·, vs.2) := by
+  have h := language_generated
+  simp only [Prod.mk.injEq] at h
+  rw [h.1, h.2]; exact countLanguage_eq_expected n l
+
 /-! ### the tie -/
 theorem pHeader_eq_generated (l : Bytes) :
     Exh.pHeader l = via exhHeaderOf (Layout.read .little BinrwExcel.eXHHeader l) :=
